@@ -543,7 +543,7 @@ type contractApp struct {
 	preserves    []string
 	pkg          *ssa.Package
 	xbinds       map[string]Val // names of the call-site clause (the callee's formals are not visible to it)
-	extra        *CalleeSpec // call-site additions on top of a function contract (mixed naming context)
+	extra        *CalleeSpec    // call-site additions on top of a function contract (mixed naming context)
 }
 
 // callVacuity: a contract applied at a call site adds assumptions (the callee's postcondition, call-site ensures,
